@@ -325,6 +325,108 @@ func runC18(w *World, r *Report) {
 		}
 	}
 
+	// ---- the default stream tool-call checker: an empty leading chunk decides nothing
+	r.Rule("C18.default-checker", "the default stream checkers answer 'no tool call' only at end of stream or on a chunk with content; 'tool call' only on a chunk with tool calls", 4)
+	{
+		fTC := w.Field("schema", "Message", "ToolCalls")
+		fContent := w.Field("schema", "Message", "Content")
+		isEOFv := func(v ssa.Value) bool {
+			if mi, ok := v.(*ssa.MakeInterface); ok {
+				v = mi.X
+			}
+			u, ok := v.(*ssa.UnOp)
+			if !ok {
+				return false
+			}
+			g, ok := u.X.(*ssa.Global)
+			return ok && g.Pkg != nil && g.Pkg.Pkg.Path() == "io" && g.Name() == "EOF"
+		}
+		lenCmp := func(g guard, f *types.Var) (nonEmpty bool, ok bool) {
+			op, x, y, isC := asCmp(g.cond)
+			if !isC || !isLenOf(x, func(v ssa.Value) bool { return isLoadOfField(v, f) }) {
+				return false, false
+			}
+			if z, isZ := constInt(y); !isZ || z != 0 {
+				return false, false
+			}
+			if !g.pol {
+				op = negateCmp(op)
+			}
+			switch op {
+			case token.GTR, token.NEQ:
+				return true, true
+			case token.EQL, token.LEQ:
+				return false, true
+			}
+			return false, false
+		}
+		for _, pk := range []string{"flow/agent/react", "flow/agent/multiagent/host"} {
+			fn := w.TryFn(pk, "firstChunkStreamToolCallChecker")
+			if fn == nil {
+				r.Fail("C18.default-checker", pk+": default checker", token.NoPos, "firstChunkStreamToolCallChecker not found")
+				continue
+			}
+			n := 0
+			instrs(fn, func(in ssa.Instruction) {
+				ret, ok := in.(*ssa.Return)
+				if !ok || in.Block() == fn.Recover {
+					return
+				}
+				if !isNilConst(returnedValue(ret, 1)) {
+					return // error return
+				}
+				n++
+				v := returnedValue(ret, 0)
+				gs := guardsOf(ret.Block())
+				hasTC, eof, content := false, false, false
+				for _, g := range gs {
+					if ne, ok := lenCmp(g, fTC); ok && ne {
+						hasTC = true
+					}
+					if ne, ok := lenCmp(g, fContent); ok && ne {
+						content = true
+					}
+					if op, x, y, ok := asCmp(g.cond); ok && (isEOFv(x) || isEOFv(y)) && ((op == token.EQL && g.pol) || (op == token.NEQ && !g.pol)) {
+						eof = true
+					}
+				}
+				construct := fmt.Sprintf("%s checker: answer #%d", pk, n)
+				if b, isC := constBool(v); isC && b {
+					r.Check(hasTC, "C18.default-checker", construct, ret.Pos(), "'tool call' under len(msg.ToolCalls) > 0", "answers 'tool call' without having seen one")
+					return
+				}
+				r.Check(eof || content, "C18.default-checker", construct, ret.Pos(), "'no tool call' at io.EOF or on a chunk with content",
+					"the checker can answer 'no tool call' on a chunk that has neither tool calls nor content (a role-only / keep-alive first chunk): the streamed run goes to END with the tool calls unexecuted while Generate on the same model output runs the tools")
+			})
+			if n < 2 {
+				r.Fail("C18.default-checker", pk+": default checker", fn.Pos(), fmt.Sprintf("only %d non-error answers found", n))
+			}
+		}
+	}
+
+	// ---- per-call data handed to tools / unknown-tool handlers is the call's own (no shared loop variable)
+	r.Rule("C18.loopvar", "the tools node and the agent flows keep no loop variable (or its address) beyond an iteration", 1)
+	{
+		n := 0
+		for _, fn := range w.RepoFuncs("compose", "flow/agent") {
+			file := w.pos(fn.Pos())
+			if !(strings.Contains(file, "tool_node.go") || strings.HasPrefix(file, "flow/agent")) {
+				continue
+			}
+			n++
+			for _, c := range loopVarCaptures(fn) {
+				r.Fail("C18.loopvar", w.fname(origin(fn))+": "+c, fn.Pos(), "a literal created in a loop captures the loop's variable: every instance sees the last tool call")
+			}
+			for _, c := range loopVarAddrEscapes(w, fn) {
+				r.Fail("C18.loopvar", w.fname(origin(fn))+": "+c, fn.Pos(), "the address of a loop variable outlives the iteration: the tool result recorded for one call is the answer computed for another (the history the next model call sees is wrong, in Generate and Stream alike)")
+			}
+		}
+		if n < 10 {
+			undecidedf("C18.loopvar: only %d functions in the tools node / agent flows (floor 10)", n)
+		}
+		r.OK("C18.loopvar", "tools node and agent flows", w.Fn("compose", "ToolsNode.genToolCallTasks").Pos(), fmt.Sprintf("%d functions inspected", n))
+	}
+
 	// ---- tool-call-merge
 	r.Rule("C18.tool-call-merge", "concatToolCalls ranges over all index groups", 1)
 	ctc := w.Fn("schema", "concatToolCalls")
